@@ -22,6 +22,8 @@ def project(c, r):
 
 def gen(ctx):
     rng = ctx.rng
+    for a in R.same_text_cases():
+        yield Case("RUN", a, tags=("same-text-programs",))
     for _ in range(20000 if ctx.thorough else 2500):
         yield Case("RUN", R.gen_case(rng, n=rng.randrange(2, 12), nadd=rng.choice([0, 1, 2, 3, 4, 4]), adversarial=0.0, faults=0.0, stop=0.0, rich=False), tags=("pick",))
 
